@@ -264,7 +264,7 @@ def classify(case, o):
 
 # ---- C: other uses of a snapshot that holds user-controlled parts: never compared, membership, sub-snapshots in loops
 def gen_usage(rng, i):
-    kind = ["never", "in", "getitem_loop", "never", "in_nested", "bound_nested", "bound_fstring", "getitem_star"][i % 8]
+    kind = ["never", "in", "getitem_loop", "never", "in_nested", "bound_nested", "bound_fstring", "getitem_star", "star_nested"][i % 9]
     g = G(rng, agree=True)
     flags = tuple(rng.choice(proggen.flag_subsets()))
     if kind == "never":
@@ -330,6 +330,19 @@ def gen_usage(rng, i):
         op = rng.choice(["<=", ">="])
         body = f"def test_a():\n    R = {obs!r} {op} snapshot({txt})\n"
         allowed = set()
+    elif kind == "star_nested":
+        # a star-expression BELOW the compared container (inside an element, a dict value, a constructor argument, inside Is(...)): only the
+        # container that holds it is frozen, the managed siblings next to that container are still repaired
+        b = rng.randint(1, 9)
+        shape, frozen_txt = rng.choice([
+            ("{{'rows': {fz}, 'count': {x}}}", "[*EXTRA, 7]"), ("[{fz}, {x}]", "[*EXTRA, 7]"), ("({fz}, {x})", "(*EXTRA, 7)"),
+            ("DC(a={fz}, b={x})", "[*EXTRA, 7]"), ("[{fz}, {x}]", "{**BASE, 'k': 7}"), ("[{fz}, {x}]", "Is(max(*VALS))"), ("{{'m': {fz}, 'count': {x}}}", "Is(max(*VALS))")])
+        old = shape.format(fz=frozen_txt, x=render_atom(0, True))
+        new = shape.format(fz=frozen_txt.replace("Is(max(*VALS))", "max(*VALS)"), x=b)
+        body = f"EXTRA = [1]\nBASE = {{'z': 0}}\nVALS = [3, 8]\n\n\ndef test_a():\n    R = {new} == snapshot({old})\n"
+        g.snips.append(frozen_txt)
+        allowed = set()
+        expect_fixed = shape.format(fz=frozen_txt, x=b)
     elif kind == "getitem_star":
         # a dict display holding a star-expression, used with [key]
         base = rng.choice(["{}", "{'z': 0}"])
@@ -348,7 +361,10 @@ def gen_usage(rng, i):
             g.snips.append("Is(K)")
         allowed = {"trim"}
     varlines = "".join(f"{n} = {v}\n" for n, v in g.vars)
-    return {"source": HEADER + varlines + "\n" + body, "snips": g.snips, "flags": flags, "usage": kind, "allowed": sorted(allowed)}
+    out = {"source": HEADER + varlines + "\n" + body, "snips": g.snips, "flags": flags, "usage": kind, "allowed": sorted(allowed)}
+    if kind == "star_nested":
+        out["expect_fixed"] = expect_fixed
+    return out
 
 
 def first_snapshot_arg(src):
@@ -384,6 +400,14 @@ def judge_usage(case, o):
         if bad:
             return f"a sub-snapshot holding Is(i), evaluated in a loop, makes the test fail: {bad[0][1]}"
     F = set(case["flags"])
+    if case.get("expect_fixed") and "fix" in F:
+        try:
+            same = ast.dump(ast.parse(o["arg"], mode="eval")) == ast.dump(ast.parse(case["expect_fixed"], mode="eval"))
+        except SyntaxError:
+            same = False
+        if not same:
+            return (f"a star-expression stands below the compared container: the managed sibling next to the container that holds it was not repaired by {sorted(F)} "
+                    f"(or the frozen container was rewritten): {o['old']} -> {o['arg']}, expected {case['expect_fixed']}")
     for s in case["snips"]:
         before, after = count_occ(o["old"], s), count_occ(o["arg"], s)
         if after > before:
